@@ -133,7 +133,11 @@ impl Fix {
                 self.model.sort();
                 "ok".into()
             }
-            29 => r(self.model.create_file(format!("new{tag}.arxml"), AutosarVersion::Autosar_00050).map(|_| "created".into())),
+            29 => {
+                // odd argument: a fixed name, so that two threads can compete for the same file name
+                let name = if o.b % 2 == 1 { "same.arxml".to_string() } else { format!("new{tag}.arxml") };
+                r(self.model.create_file(name, AutosarVersion::Autosar_00050).map(|_| "created".into()))
+            }
             30 => {
                 self.model.remove_file(&self.files[0]);
                 "ok".into()
@@ -150,6 +154,21 @@ impl Fix {
                 "ok".into()
             }
         }
+    }
+
+    /// lock address of every element -> lock address of its parent (own recursion over content())
+    pub fn parent_locks(&self, into: &mut std::collections::HashMap<usize, usize>) {
+        for m in [&self.model, &self.other] {
+            let mut stack = vec![m.root_element()];
+            while let Some(e) = stack.pop() {
+                let pa = e.verif_lock_addr();
+                for k in e.content().filter_map(|c| c.unwrap_element()) {
+                    into.insert(k.verif_lock_addr(), pa);
+                    stack.push(k);
+                }
+            }
+        }
+        // role elements keep their initial place as well (they may have been removed during the run)
     }
 
     /// id-free summary of the observable state of both models
@@ -227,6 +246,8 @@ impl ConcCase {
 }
 
 pub struct ConcOutcome {
+    /// element lock -> parent element lock, before and after the run (union)
+    pub parents: std::collections::HashMap<usize, usize>,
     pub results: Vec<Result<Vec<String>, String>>,
     pub info: RunInfo,
     pub summary: Option<String>,
@@ -235,6 +256,8 @@ pub struct ConcOutcome {
 
 pub fn run_concurrent(c: &ConcCase) -> ConcOutcome {
     let fix = std::sync::Arc::new(Fix::new());
+    let mut parents = std::collections::HashMap::new();
+    fix.parent_locks(&mut parents);
     let mut bodies: Vec<Box<dyn FnOnce() -> Vec<String> + Send>> = vec![];
     for (ti, ops) in c.threads.iter().enumerate() {
         let fix = fix.clone();
@@ -244,7 +267,11 @@ pub fn run_concurrent(c: &ConcCase) -> ConcOutcome {
     let (results, info) = run_threads(c.schedule.clone(), bodies);
     let clean = results.iter().all(|r| r.is_ok()) && !info.aborted;
     let (summary, inv) = if clean { (Some(fix.summary()), fix.invariants()) } else { (None, Ok(())) };
-    ConcOutcome { results, info, summary, inv }
+    if info.deadlock.is_some() {
+        // (after a deadlock the threads were unwound and all locks are free again)
+        let _ = no_panic(|| fix.parent_locks(&mut parents));
+    }
+    ConcOutcome { parents, results, info, summary, inv }
 }
 
 /// all sequential executions (every interleaving of whole operations that respects each thread's own order);
